@@ -144,6 +144,16 @@ Corollary nonce13_distinct iv s s' :
   length iv = 12%nat -> s < 2 ^ 64 -> s' < 2 ^ 64 -> s <> s' -> nonce13 iv s <> nonce13 iv s'.
 Proof. intros Hiv Hs Hs' Hne E. apply Hne. now apply (nonce13_injective iv). Qed.
 
+Corollary nonce_distinct iv e s e' s' :
+  length iv = 12%nat -> e < 2 ^ 16 -> e' < 2 ^ 16 -> s < 2 ^ 48 -> s' < 2 ^ 48 ->
+  (e, s) <> (e', s') ->
+  nonce_aes iv e s <> nonce_aes iv e' s' /\ nonce_chacha iv e s <> nonce_chacha iv e' s'.
+Proof.
+  intros Hiv He He' Hs Hs' Hne. split.
+  - now apply nonce_aes_distinct.
+  - now apply nonce_chacha_distinct.
+Qed.
+
 Theorem nonce_lengths iv e s q : length iv = 12%nat ->
   length (nonce_aes iv e s) = 12%nat /\ length (nonce_chacha iv e s) = 12%nat /\
   length (nonce13 iv q) = 12%nat.
@@ -196,4 +206,56 @@ Proof.
   - lia.
   - unfold cbc_padding. fold n. apply Forall_forall. intros b Hin. apply repeat_spec in Hin.
     rewrite Hin. lia.
+Qed.
+
+(* ---------- DTLS 1.3 sequence-number encryption ---------- *)
+
+Lemma lxor_byte a b : a < 256 -> b < 256 -> N.lxor a b < 256.
+Proof.
+  intros Ha Hb. destruct (N.eq_dec (N.lxor a b) 0) as [E|E]; [rewrite E; lia|].
+  change 256 with (2 ^ 8). apply N.log2_lt_pow2; [lia|].
+  pose proof (N.log2_lxor a b) as Hx.
+  assert (La : N.log2 a < 8).
+  { destruct (N.eq_dec a 0) as [->|Hz]; [cbn; lia|]. apply N.log2_lt_pow2; [lia | exact Ha]. }
+  assert (Lb : N.log2 b < 8).
+  { destruct (N.eq_dec b 0) as [->|Hz]; [cbn; lia|]. apply N.log2_lt_pow2; [lia | exact Hb]. }
+  lia.
+Qed.
+
+Lemma xor_bytes_ok a : forall m, bytes_ok a = true -> bytes_ok m = true -> bytes_ok (xor_bytes a m) = true.
+Proof.
+  induction a as [|x a IH]; intros [|y m] Ha Hm; cbn [xor_bytes]; try reflexivity.
+  unfold bytes_ok in *. cbn [forallb] in *.
+  apply andb_prop in Ha. destruct Ha as [Hx Ha]. apply andb_prop in Hm. destruct Hm as [Hy Hm].
+  rewrite (IH m Ha Hm), andb_true_r. unfold byte_ok in *.
+  apply N.ltb_lt. apply lxor_byte; now apply N.ltb_lt.
+Qed.
+
+Lemma xor_bytes_involutive a : forall m, (length a <= length m)%nat -> xor_bytes (xor_bytes a m) m = a.
+Proof.
+  induction a as [|x a IH]; intros [|y m] Hl; cbn [xor_bytes length] in *; try reflexivity; try lia.
+  rewrite IH by lia. f_equal.
+  now rewrite N.lxor_assoc, N.lxor_nilpotent, N.lxor_0_r.
+Qed.
+
+(* applying the mask twice gives back the sequence-number bits: the receiver recovers what the
+   sender put in the header (16-bit and 8-bit forms) *)
+Theorem sn_mask_involutive (seq_bit : bool) (x : N) (mask : bytes) :
+  bytes_ok mask = true -> (2 <= length mask)%nat -> x < (if seq_bit then 2 ^ 16 else 2 ^ 8) ->
+  sn_mask_apply seq_bit (sn_mask_apply seq_bit x mask) mask = x.
+Proof.
+  intros Hok Hlen Hx.
+  assert (Hgen : forall k, (k <= 2)%nat -> x < 256 ^ N.of_nat k ->
+            be_dec (xor_bytes (be_enc k (be_dec (xor_bytes (be_enc k x) mask))) mask) = x).
+  { intros k Hk Hxk.
+    set (y := xor_bytes (be_enc k x) mask).
+    assert (Hy : length y = k).
+    { unfold y. rewrite xor_bytes_length, be_enc_length. lia. }
+    assert (Hyok : bytes_ok y = true) by (apply xor_bytes_ok; [apply be_enc_ok | exact Hok]).
+    rewrite <- Hy at 1. rewrite (be_enc_dec y Hyok). unfold y.
+    rewrite xor_bytes_involutive by (rewrite be_enc_length; lia).
+    now apply be_dec_enc. }
+  unfold sn_mask_apply. destruct seq_bit.
+  - apply (Hgen 2%nat); [lia | exact Hx].
+  - apply (Hgen 1%nat); [lia | exact Hx].
 Qed.
